@@ -159,6 +159,8 @@ def run(ctx):
         idn = [idents[id(r)] for r in t]
         distinct = len(set(idn)) == 3
         ctx.case(digest(*tx) if distinct else None, {"triple": tx} if distinct else None)
+        if worker.timed_out(ctx, rep):
+            continue
         if "ok" not in rep:
             msg = str(rep.get("error") or rep.get("panic") or rep)
             if "expected one rule" in msg or rep.get("error"):
@@ -250,6 +252,8 @@ def run(ctx):
         results += part
     for (stratum, lst, perms), rep in zip(lists, results):
         tx = [texts[id(r)] for r in lst]
+        if worker.timed_out(ctx, rep):
+            continue
         if "ok" not in rep:
             ctx.case(None)
             continue
